@@ -342,3 +342,24 @@ def rule_move_subroutines(ctx, rep):
                     diffs.append((key, f"B{b} / B{ob}", v, cb[key][ob]))
         rep.check(not diffs, rule, f"{name}: contexts", ctx.path("tealer.analyses.dataflow.transaction_context.generic"), diffs[:4], [],
                   why="block contexts depend on the order in which subroutine bodies are written", sample={"program": name, "keys": sorted(ca)})
+
+
+def rule_fixpoint_order(ctx, rep):
+    rule = "T-ORDER(fixpoint)"
+    rep.rule(rule, "the contexts the four analyses compute do not depend on the order of the function's block list and subroutine table (both "
+                   "come out of a set of subroutine objects in construct_function, i.e. in an order that changes from run to run): the complete "
+                   "analysis evaluated with both orders on programs with two subroutines, loops and early exits gives the same per-block result")
+    from .fixpoint import analyse
+    where = ctx.path("tealer.analyses.dataflow.transaction_context.generic")
+    progs = {name: main + f + g for name, (main, f, g) in MOVE_PROGRAMS.items()}
+    progs.update({k: v for k, v in PAD_PROGRAMS.items() if "subroutine" in k or "diamond" in k})
+    for name, src in progs.items():
+        try:
+            a, la = analyse(ctx, src)
+            b, lb = analyse(ctx, src, reverse_order=True)
+        except PyRaise as e:
+            rep.violation(rule, f"{name}: runs", where, f"RAISES {e.exc} {e.where}", "two analyses")
+            continue
+        diffs = [(key, f"B{blk}", a[key][blk], b[key].get(blk)) for key in a for blk in a[key] if a[key][blk] != b[key].get(blk)]
+        rep.check(not diffs and la == lb, rule, name, where, diffs[:4], [], why="block contexts depend on the order in which blocks and subroutines are listed",
+                  sample={"program": name, "keys": sorted(a)})
